@@ -8,7 +8,9 @@ impl Clone for SecretKey {
     fn clone(&self) -> (r: Self) ensures r == *self { unimplemented!() }
 }
 pub struct Secp256k1 { pub ctx: u8 }
-pub struct PublicKey { pub b: [u8; 33] }
+// 33-byte compressed point; structural equality (exec `==` is spec `==`)
+#[derive(PartialEq, Eq, Structural)]
+pub struct PublicKey { pub hi: u128, pub mid: u128, pub lo: u8 }
 pub struct Commitment(pub [u8; 33]);
 impl Clone for Commitment {
     #[verifier::external_body]
@@ -82,13 +84,15 @@ pub proof fn lemma_tx_fee_monotone(i: int, o1: int, o2: int, k: int)
 pub struct Utc;
 pub struct DateTime<Tz> { pub secs: i64, pub tz: core::marker::PhantomData<Tz> }
 pub struct Duration { pub secs: u64 }
-pub struct DalekPublicKey { pub b: [u8; 32] }
+#[derive(PartialEq, Eq, Structural)]
+pub struct DalekPublicKey { pub hi: u128, pub lo: u128 }
 impl Clone for DalekPublicKey {
     #[verifier::external_body]
     fn clone(&self) -> (r: Self) ensures r == *self { unimplemented!() }
 }
 impl Copy for DalekPublicKey {}
-pub struct DalekSignature { pub b: [u8; 64] }
+#[derive(PartialEq, Eq, Structural)]
+pub struct DalekSignature { pub a: u128, pub b: u128, pub c: u128, pub d: u128 }
 impl Clone for DalekSignature {
     #[verifier::external_body]
     fn clone(&self) -> (r: Self) ensures r == *self { unimplemented!() }
@@ -107,7 +111,8 @@ impl Clone for BlindingFactor {
     #[verifier::external_body]
     fn clone(&self) -> (r: Self) ensures r == *self { unimplemented!() }
 }
-pub struct Signature { pub b: [u8; 64] }
+#[derive(PartialEq, Eq, Structural)]
+pub struct Signature { pub a: u128, pub b: u128, pub c: u128, pub d: u128 }
 impl Clone for Signature {
     #[verifier::external_body]
     fn clone(&self) -> (r: Self) ensures r == *self { unimplemented!() }
@@ -161,6 +166,19 @@ pub fn vf_fee_fields_try_from(fee: u64) -> (r: Result<FeeFields, transaction::Er
 { unimplemented!() }
 impl FeeFields {
     pub open spec fn spec_fee(&self) -> int { (self.raw & 0xFF_FFFF_FFFF) as int }
+    // grin_core FeeFields: zero / as_opt / is_zero / fee / new (transcribed contracts)
+    #[verifier::external_body]
+    pub fn zero() -> (r: FeeFields) ensures r.raw == 0 { unimplemented!() }
+    #[verifier::external_body]
+    pub fn is_zero(&self) -> (r: bool) ensures r == (self.raw == 0) { unimplemented!() }
+    #[verifier::external_body]
+    pub fn as_opt(&self) -> (r: Option<FeeFields>) ensures r == (if self.raw == 0 { None::<FeeFields> } else { Some(*self) }) { unimplemented!() }
+    #[verifier::external_body]
+    pub fn fee(&self) -> (r: u64) ensures r == self.raw & 0xFF_FFFF_FFFF { unimplemented!() }
+    #[verifier::external_body]
+    pub fn new(fee_shift: u64, fee: u64) -> (r: Result<FeeFields, transaction::Error>)
+        ensures (r is Ok) == (fee != 0 && fee <= 0xFF_FFFF_FFFF && fee_shift <= 0xF),
+            r matches Ok(f) ==> f.raw == ((fee_shift << 40) | fee) { unimplemented!() }
 }
 pub struct SecpMessage { pub b: [u8; 32] }
 
@@ -211,7 +229,7 @@ impl Utc {
     #[verifier::external_body]
     pub fn now() -> (r: DateTime<Utc>) { unimplemented!() }
 }
-pub struct OnionV3Address { pub b: [u8; 32] }
+pub struct OnionV3Address { pub k: DalekPublicKey }
 pub uninterp spec fn spec_addr_key(parent: Identifier, index: u32) -> SecretKey;
 pub uninterp spec fn spec_ed25519_pub(sk: SecretKey) -> DalekPublicKey;
 pub mod address {
@@ -223,10 +241,10 @@ pub fn address_from_derivation_path<K: Keychain>(keychain: &K, parent_key_id: &I
 impl OnionV3Address {
     #[verifier::external_body]
     pub fn from_private(key: &[u8; 32]) -> (r: Result<OnionV3Address, util::OnionV3AddressError>)
-        ensures r matches Ok(a) ==> a.b == spec_ed25519_pub(SecretKey(*key)).b { unimplemented!() }
+        ensures r matches Ok(a) ==> a.k == spec_ed25519_pub(SecretKey(*key)) { unimplemented!() }
     #[verifier::external_body]
     pub fn to_ed25519(&self) -> (r: Result<DalekPublicKey, util::OnionV3AddressError>)
-        ensures r matches Ok(p) ==> p.b == self.b { unimplemented!() }
+        ensures r matches Ok(p) ==> p == self.k { unimplemented!() }
 }
 impl From<OnionV3AddressErrorStub> for Error { #[verifier::external_body] fn from(e: OnionV3AddressErrorStub) -> (r: Error) ensures r is OnionV3Address { unimplemented!() } }
 // A-hash: Identifier's derived Hash/Eq obey the HashMap key model
@@ -235,3 +253,16 @@ pub proof fn axiom_identifier_key_model() ensures vstd::std_specs::hash::obeys_k
 // L8: `.clone()` on a tuple value
 #[verifier::external_body]
 pub fn vf_clone<T>(v: &T) -> (r: T) ensures r == *v { unimplemented!() }
+
+// grin_core::global / consensus / libtx::reward (opaque; transcribed contracts)
+pub mod global { pub use crate::coinbase_maturity; }
+#[verifier::external_body]
+pub fn coinbase_maturity() -> (r: u64) { unimplemented!() }
+pub uninterp spec fn spec_reward(fees: u64) -> u64;   // consensus::reward = REWARD.saturating_add(fees)
+#[verifier::external_body]
+pub fn reward(fees: u64) -> (r: u64) ensures r == spec_reward(fees) { unimplemented!() }
+pub struct Output { pub o: u8 }
+pub struct TxKernel { pub k: u8 }
+pub mod reward { pub use crate::reward_output as output; }
+#[verifier::external_body]
+pub fn reward_output<K: Keychain, B: ProofBuild>(keychain: &K, builder: &B, key_id: &Identifier, fees: u64, test_mode: bool) -> (r: Result<(Output, TxKernel), libtx::Error>) { unimplemented!() }
